@@ -609,6 +609,9 @@ def rule_com_variations(ctx):
         ma = re.match(r'^\(?\*?(\w+)\)?\.(\w+)$', txt)
         if ma and ma.group(1) in aliases:
             txt = aliases[ma.group(1)] + '.' + ma.group(2)
+        mo = re.match(r'^\(?(?:r\.)?particles\+(\w+)\)?\[\(?(\w+)\)?\]\.(\w+)$', txt)      # (particles+index)[i].m
+        if mo and mo.group(2) == lv:
+            return (idx_class.get(mo.group(1)), mo.group(3))
         mb = re.match(r'^(\w+)\[\(?(\w+)\)?\]\.(\w+)$', txt)
         if mb and mb.group(1) in base_class and mb.group(2) == lv:
             return (base_class[mb.group(1)], mb.group(3))
